@@ -238,6 +238,34 @@ class Ctx:
             out.add((body.id, r, tuple(p)))
         return out
 
+    def closure_callees(self, closure_id, depth=3):
+        """Last path segments of everything a closure body (and the closures it defines) calls."""
+        out = set()
+        if not self.has_fn(closure_id) or depth < 0:
+            return out
+        body = self.body(closure_id)
+        for _, t in body.calls():
+            out.add(mir.last_seg(mir.callee(t) or ""))
+        for c in self.cg.closures_of.get(closure_id, ()):
+            out |= self.closure_callees(c, depth - 1)
+        return out
+
+    def blocks_calling(self, body, names, region=None):
+        """Blocks of `body` that call one of `names` (last segments) directly, or that build a closure whose body does
+        (`xs.iter().map(|x| circuit.push_not(*x)).collect()` is the loop written with an adaptor)."""
+        out = set()
+        for b, blk in enumerate(body.blocks):
+            if region is not None and b not in region:
+                continue
+            t = blk.get("term")
+            if t and t["k"] == "call" and mir.last_seg(mir.callee(t) or "") in names:
+                out.add(b)
+            for st in blk["stmts"]:
+                if st["k"] == "assign" and st["rv"]["k"] == "aggregate" and st["rv"].get("closure"):
+                    if self.closure_callees(st["rv"]["closure"]) & set(names):
+                        out.add(b)
+        return out
+
     def promoted_const(self, repr_):
         """For an operand `const <fn>::promoted[i]`: 'adt::Variant' of the enum constant it refers to (or None)."""
         import re as _re
